@@ -92,6 +92,28 @@ func oracle(in *ctl.Inst, r *vs.Result) []string {
 	if !o.DoneAtRead && o.HistDoneAtRead && len(in.C.WatchFaults) == 0 && in.C.DefaultWatch.Kind == "" && o.CacheAtRead != want {
 		msgs = append(msgs, fmt.Sprintf("cache regressed or lost watch events | %s: the watch is healthy and the server is quiet, yet the cache holds %s while the server's accepted objects are %s (list snapshots at %v, server at %d)", desc, o.CacheAtRead, want, o.ListRVs, o.ServerRV))
 	}
+	// the watch never goes back in time: Watch calls carry non-decreasing versions (a relist moves the watch forward to
+	// the list's version; only a stale list - configured explicitly - may move it back)
+	staleList := false
+	for _, f := range in.C.ListFaults {
+		if f.Stale {
+			staleList = true
+		}
+	}
+	if !staleList {
+		prev := -1
+		for _, rv := range o.WatchRVs {
+			var v int
+			if _, err := fmt.Sscanf(rv, "%d", &v); err != nil {
+				continue
+			}
+			if v < prev {
+				msgs = append(msgs, fmt.Sprintf("watch resumed from a version older than a previous one | %s: Watch calls at versions %v (lists at %v)", desc, o.WatchRVs, o.ListRVs))
+				break
+			}
+			prev = v
+		}
+	}
 	if !o.Finished {
 		msgs = append(msgs, fmt.Sprintf("Close hangs | %s: Close() did not return / Done() did not close (closes returned %d of %d); blocked: %v", desc, o.CloseReturned, o.ClosesIssued, ctl.BlockedNames(r)))
 		return msgs
@@ -218,6 +240,11 @@ func Property() runner.Property {
 				// watcher's buffer must not undo what the list installed
 				mk("recreate-around-relist/close@1", ctl.Cfg{Pre: pre, Hist: []ctl.Mut{{Op: "del", Name: "a", Delay: 3 * time.Second}, {Op: "set", Name: "a", Labels: "l=1"}}, WatchFaults: map[int]fakeapi.WatchFault{1: W("close", 1)}, ReadAt: 5 * time.Second}),
 				mk("watch-blocks-forever/late", ctl.Cfg{Pre: pre, Hist: late, DefaultWatch: W("block", 0)}),
+				// the stream closes shortly before a relist completes (the reconnect is still pending when the relist
+				// resets the watch): the watch must go on from the list's version
+				mk("watch-closes-just-before-relist/recreate", ctl.Cfg{Pre: pre, Hist: []ctl.Mut{{Op: "del", Name: "a", Delay: 2500 * time.Millisecond}, {Op: "set", Name: "a", Labels: "l=1"}}, WatchFaults: map[int]fakeapi.WatchFault{1: W("close", 2)}, ReadAt: 8 * time.Second}),
+				// a list that names every object twice (its previous version after the current one), under a label filter
+				mk("list-with-older-duplicates/l=1", ctl.Cfg{Filter: 2, Pre: pre, Hist: []ctl.Mut{{Op: "set", Name: "a", Labels: "l=0", Delay: time.Second}, {Op: "set", Name: "b", Labels: "l=1"}}, DefaultWatch: W("error", 0), ListFaults: map[int]fakeapi.ListFault{2: {Kind: "dup-old"}, 3: {Kind: "dup-old"}}, ReadAt: 8 * time.Second}),
 				// everything is deleted on the server and the watch never reports it: the (empty) relist must clear the cache
 				mk("relist-to-empty-server/watch-never-connects", ctl.Cfg{Pre: pre, Hist: []ctl.Mut{{Op: "del", Name: "a", Delay: 4 * time.Second}}, DefaultWatch: W("error", 0), ReadAt: 8 * time.Second}),
 				// the watch opened after relist #2 replays a stale DELETED frame and the server stays quiet: only relist #3
